@@ -47,6 +47,7 @@ func runC15(c *Ctx) {
 	c12Cbuf(c)
 	writerGrowRules(c, "C15")
 	c11HeadEnd(c)
+	c15PrefetchMeasured(c)
 	writerFlushFragmentRules(c, "C15")
 	// last: the bounds rule uses what every fold above established about the sites it executed
 	c15Bounds(c)
@@ -132,6 +133,9 @@ var reviewedBounds = map[string]string{
 	"wsutil.(*Writer).initBuf: v1.raw[v2:]":              "guarded by the panic on len(w.raw) <= offset just above",
 	"wsutil.(*bytesWriter).Write: v1.buf[v1.pos:]":       "pos only grows by copy counts into buf[pos:]",
 	"wsutil.NewControlWriterBuffer: v1[:v2]":             "guarded by len(buf) > max",
+	// the debugging dialer slices the sniffed copy of the handshake response
+	"wsutil.(*DebugDialer).Dial: v1[:v2]": "guarded by the clamp n > len(p); n >= 0 because h is in 0..len(p) (head-end-index fold, -1 replaced by len(p)) and the body length added to it is the count io.Copy returned (C15.prefetch-length-measured), never a length the peer announced",
+	"wsutil.(*DebugDialer).Dial: v1[v2:]": "guarded by h != -1 (replaced by len(p)): headEndIndex returns -1 or an index <= len(p) (head-end-index fold)",
 }
 
 func c15Bounds(c *Ctx) {
@@ -897,4 +901,61 @@ func fromSyncPool(v ssa.Value) bool {
 	}
 	callee := call.Call.StaticCallee()
 	return callee != nil && callee.String() == "(*sync.Pool).Get"
+}
+
+// c15PrefetchMeasured backs the reviewed bound of DebugDialer.Dial: the body
+// length the sniffing reader reports is a measured one - the count io.Copy
+// returned while draining the body into the sniffed buffer - and not the
+// Content-Length the peer announced (h + announced length can wrap negative and
+// slip under the clamp).
+func c15PrefetchMeasured(c *Ctx) {
+	const rule = "C15.prefetch-length-measured"
+	c.R.Rule(rule, 1, "the response body length DebugDialer.Dial slices with is the byte count io.Copy measured, not an announced Content-Length")
+	tn := c.P.NamedType(wsutil, "prefetchResponseReader")
+	if tn == nil {
+		c.R.Unknown(rule, rule+"/anchor", "-", "wsutil.prefetchResponseReader does not resolve")
+		return
+	}
+	st := structOf(tn)
+	idx := fieldIdx(st, "contentLength", typeIs("*int64"))
+	if idx < 0 {
+		c.R.Unknown(rule, rule+"/anchor:field", "-", "prefetchResponseReader.contentLength (*int64) does not resolve")
+		return
+	}
+	n := 0
+	for _, fn := range c.P.AllModuleFuncs() {
+		for _, b := range fn.Blocks {
+			for _, in := range b.Instrs {
+				sto, ok := in.(*ssa.Store)
+				if !ok {
+					continue
+				}
+				ld, ok := sto.Addr.(*ssa.UnOp)
+				if !ok {
+					continue
+				}
+				fa, ok := ld.X.(*ssa.FieldAddr)
+				if !ok || fa.Field != idx || !types.Identical(fa.X.Type().Underlying().(*types.Pointer).Elem(), tn) {
+					continue
+				}
+				n++
+				key := fmt.Sprintf("%s/%s#%d", rule, astFuncName(fn), n)
+				v := sto.Val
+				if cv, ok := v.(*ssa.Convert); ok {
+					v = cv.X
+				}
+				measured := false
+				if ex, ok := v.(*ssa.Extract); ok && ex.Index == 0 {
+					if call, ok := ex.Tuple.(*ssa.Call); ok {
+						if cal := call.Call.StaticCallee(); cal != nil && (cal.String() == "io.Copy" || cal.String() == "io.CopyN" || cal.String() == "io.CopyBuffer") {
+							measured = true
+						}
+					}
+				}
+				c.R.Check(measured, rule, key, c.P.Pos(sto.Pos()), "the stored length is the count returned by io.Copy",
+					"the body length stored for DebugDialer.Dial is "+v.String()+" ("+v.Name()+"), not a count returned by io.Copy: with an announced length the peer chooses, h + length can wrap negative and `p[:n]` panics")
+			}
+		}
+	}
+	c.R.Sites += n
 }
